@@ -128,8 +128,8 @@ func genScalar(t *rapid.T, fd protoreflect.FieldDescriptor, label string) tok {
 			i := rapid.SampledFrom([]int{0, 1, 2, 0, 1, 2, shardBogus, shardBadLen}).Draw(t, label+".shard")
 			return tok{Sym: "shard", Idx: i}
 		case strings.Contains(n, "address"):
-			i := rapid.SampledFrom([]int{0, 1, 2, 3, 4, 5, addrTombstoned, addrTombstoned, addrTombstone, addrInDump,
-				addrAbsent, addrMalformed}).Draw(t, label+".addr")
+			i := rapid.SampledFrom([]int{0, 1, 2, 3, 4, 5, addrTombstoned, addrTombstoned, addrTombstoned, addrTombstone,
+				addrInDump, addrAbsent, addrMalformed}).Draw(t, label+".addr")
 			return tok{Sym: "addr", Idx: i}
 		case strings.Contains(n, "path"):
 			i := rapid.SampledFrom([]int{pathDump, pathDump, pathFresh, pathFresh, pathGarbage, pathNoDir}).Draw(t, label+".path")
@@ -184,7 +184,7 @@ func genFields(t *rapid.T, md protoreflect.MessageDescriptor, label string, dept
 		l := label + "." + string(fd.Name())
 		fs := fieldSpec{Name: string(fd.Name()), List: fd.IsList()}
 		if fd.IsList() {
-			n := rapid.SampledFrom([]int{0, 1, 1, 1, 2, 3}).Draw(t, l+".len")
+			n := rapid.SampledFrom([]int{1, 1, 1, 1, 0, 2, 3}).Draw(t, l+".len")
 			for j := range n {
 				fs.Vals = append(fs.Vals, genScalar(t, fd, fmt.Sprintf("%s[%d]", l, j)))
 			}
